@@ -119,9 +119,18 @@ def run(ctx):
     binary = gensym.build_native(d, tag="c14")
     N = int(os.environ.get("VERIF_C14_N", "2" if ctx.quick else "3"))
     jobs = []
-    starts = START_RULES if not ctx.quick else START_RULES[:8]
+    # "... and to each of its sub-rules": every rule of grammar.pest is an entry point (Parser::parse(Rule::x, ..) starts non-atomic
+    # whatever context the rule normally runs in); quick: the eight main ones plus a rotating third of the others
+    allr = re.findall(r"^([A-Za-z_][A-Za-z_0-9]*)\s*=", re.sub(r"//[^\n]*", "", text), re.M)
+    others = [r for r in allr if r not in START_RULES[:8]]
+    starts = allr if not ctx.quick else START_RULES[:8] + [r for i, r in enumerate(others) if i % 3 == ctx.seed % 3 or r in ("line_comment", "block_comment", "COMMENT", "WHITESPACE")]
     for s in starts:
         for n in range(N + 1): jobs.append((P, st["optimized"], s, ("free", n)))
+    # comment rules entered directly: what lies between their parts is visible only on longer texts
+    for t in ['/*H//H*/', '/* /*H*/ //H*/ */', '//H/x', '// H!', '/*H*/H', '//H\nH']:
+        b = t.encode(); holes = {i for i, c in enumerate(b) if c == ord("H")}
+        for s in ("block_comment", "line_comment", "COMMENT"):
+            if s in allr: jobs.append((P, st["optimized"], s, ("tmpl", b, holes)))
     # one Vm value used for two texts in a row (a Vm is built once and reused by its users): the second result is compared
     RN = (1, 2) if ctx.quick else (2, 2)
     for s in starts[:1] if ctx.quick else starts[:4]:
